@@ -227,7 +227,8 @@ _gen_built = {}
 def gen_binary(profile='dev'):
     if profile in _gen_built:
         return _gen_built[profile]
-    rdir = os.path.join(VERIF, 'replay-gen')
+    from vlib.common import harness_crate
+    rdir = harness_crate('replay-gen')
     shutil.copyfile(os.path.join(REPO, 'Cargo.lock'), os.path.join(rdir, 'Cargo.lock'))
     tdir = os.path.join(BUILD, 'replay-gen-target')
     p = subprocess.run(['cargo', 'build', '--offline'] + (['--release'] if profile == 'release' else []), cwd=rdir,
